@@ -536,6 +536,90 @@ theorem ref_composites_generated_eq_model {P : RefParams} (hL : IsLevel P) :
     fun a b ctl => SqiProofs.FpRefGen.fp_cswap_eq P a b ctl, SqiProofs.FpRefGen.fp_neg_eq P hV,
     SqiProofs.FpRefGen.fp_sqrt_eq hV⟩
 
+/-- the ref-back-end record with the five primitives = the extracted fiat programs (`genOps`) AND the composites = the functions
+    generated from gfx/fp.c (output arrays start as 0) -/
+def genOpsFull (P : RefParams) (n : Nat) (add sub mul square set_one : SqiModel.Fiat.Prog) : FpOps Nat :=
+  { genOps P n add sub mul square set_one with
+    zero := SqiGen.FpRef.fp_set_zero P 0
+    neg := fun a => SqiGen.FpRef.fp_neg P 0 a
+    half := fun a => SqiGen.FpRef.fp_half P 0 a
+    inv := SqiGen.FpRef.fp_inv P
+    sqrt := SqiGen.FpRef.fp_sqrt P
+    isSquare := SqiGen.FpRef.fp_is_square P
+    isZero := SqiGen.FpRef.fp_is_zero P
+    isEqual := SqiGen.FpRef.fp_is_equal P
+    select := fun a b ctl => SqiGen.FpRef.fp_select P 0 a b ctl
+    cswap := SqiGen.FpRef.fp_cswap P
+    setSmall := SqiGen.FpRef.fp_set_small P 0 }
+
+/-- **C07, ref back-end, text → proof**: the record made of the extracted fiat programs and the generated gfx/fp.c composites
+    refines `ZMod p` (`encode` is the only field still taken from the hand model) -/
+theorem genOpsFull_refines {P : RefParams} (hL : IsLevel P) {n : Nat} {add sub mul square set_one : SqiModel.Fiat.Prog}
+    (h1 : SqiModel.Fiat.runLimbs set_one n [] = Ref.fp_set_one P)
+    (hadd : ∀ a b, a < P.R → b < P.R → SqiModel.Fiat.runLimbs add n [a, b] = Ref.fp_add P a b)
+    (hsub : ∀ a b, a < P.R → b < P.R → SqiModel.Fiat.runLimbs sub n [a, b] = Ref.fp_sub P a b)
+    (hmul : ∀ a b, a < P.R → b < P.R → SqiModel.Fiat.runLimbs mul n [a, b] = Ref.fp_mul P a b)
+    (hsqr : ∀ a, a < P.R → SqiModel.Fiat.runLimbs square n [a] = Ref.fp_sqr P a) :
+    have := hL.prime
+    FpRefines (genOpsFull P n add sub mul square set_one) P.p (fun a => a < P.p) (toZ P) := by
+  have := hL.prime
+  have hV := hL.valid
+  have hR := hV.hpR
+  have h0 : (0 : Nat) < P.R := Nat.two_pow_pos _
+  have r := genOps_refines hL h1 hadd hsub hmul hsqr
+  obtain ⟨g1, g2, g3, g4, g5, g6, g7, g8, g9, g10, g11, g12, g13⟩ := ref_composites_generated_eq_model hL
+  exact
+    { p4 := r.p4
+      zero := by
+        have e : (genOpsFull P n add sub mul square set_one).zero = Ref.fp_set_zero := g4 0 h0
+        rw [e]; exact r.zero
+      one := r.one, add := r.add, sub := r.sub, mul := r.mul, sqr := r.sqr
+      neg := fun {a} ha => by
+        have e : (genOpsFull P n add sub mul square set_one).neg a = Ref.fp_neg P a := g12 0 a (by omega)
+        rw [e]; exact r.neg ha
+      half := fun {a} ha => by
+        have e : (genOpsFull P n add sub mul square set_one).half a = Ref.fp_half P a := g9 0 a
+        rw [e]; exact r.half ha
+      inv := fun {a} ha => by
+        have e : (genOpsFull P n add sub mul square set_one).inv a = Ref.fp_inv P a := g8 a
+        rw [e]; exact r.inv ha
+      sqrt := fun {a} ha => by
+        have e : (genOpsFull P n add sub mul square set_one).sqrt a = Ref.fp_sqrt P a := g13 a ha
+        rw [e]; exact r.sqrt ha
+      isSquare := fun {a} ha => by
+        have e : (genOpsFull P n add sub mul square set_one).isSquare a = Ref.fp_is_square P a := g10 a ha
+        rw [e]; exact r.isSquare ha
+      isZero := fun {a} ha => by
+        have e : (genOpsFull P n add sub mul square set_one).isZero a = Ref.fp_is_zero a := g1 a (by omega)
+        rw [e]; exact r.isZero ha
+      isEqual := fun {a b} ha hb => by
+        have e : (genOpsFull P n add sub mul square set_one).isEqual a b = Ref.fp_is_equal a b := g2 a b (by omega) (by omega)
+        rw [e]; exact r.isEqual ha hb
+      select := fun {a b} ha hb => by
+        have e0 : (genOpsFull P n add sub mul square set_one).select a b 0 = Ref.fp_select P a b 0 := g3 0 a b 0 h0 (by omega) (by omega)
+        have e1 : (genOpsFull P n add sub mul square set_one).select a b T32 = Ref.fp_select P a b T32 := g3 0 a b T32 h0 (by omega) (by omega)
+        rw [e0, e1]; exact r.select ha hb
+      cswap := fun {a b} ha hb => by
+        have e0 : (genOpsFull P n add sub mul square set_one).cswap a b 0 = Ref.fp_cswap P a b 0 := g11 a b 0 (by omega) (by omega)
+        have e1 : (genOpsFull P n add sub mul square set_one).cswap a b T32 = Ref.fp_cswap P a b T32 := g11 a b T32 (by omega) (by omega)
+        rw [e0, e1]; exact r.cswap ha hb
+      setSmall := fun v hv => by
+        have e : (genOpsFull P n add sub mul square set_one).setSmall v = Ref.fp_set_small P v := g6 0 v h0
+        rw [e]; exact r.setSmall v hv
+      encode := r.encode }
+
+/-- instances for the three parameter sets -/
+theorem ref_backend_text_to_proof :
+    FpRefines (genOpsFull lvl1 4 SqiGen.Fiat1.add SqiGen.Fiat1.sub SqiGen.Fiat1.mul SqiGen.Fiat1.square SqiGen.Fiat1.set_one) lvl1.p (fun a => a < lvl1.p) (toZ lvl1) ∧
+    FpRefines (genOpsFull lvl3 6 SqiGen.Fiat3.add SqiGen.Fiat3.sub SqiGen.Fiat3.mul SqiGen.Fiat3.square SqiGen.Fiat3.set_one) lvl3.p (fun a => a < lvl3.p) (toZ lvl3) ∧
+    FpRefines (genOpsFull lvl5 8 SqiGen.Fiat5.add SqiGen.Fiat5.sub SqiGen.Fiat5.mul SqiGen.Fiat5.square SqiGen.Fiat5.set_one) lvl5.p (fun a => a < lvl5.p) (toZ lvl5) :=
+  ⟨genOpsFull_refines .l1 SqiProofs.FiatLayer1.set_one_val SqiProofs.FiatLayer1.add_val SqiProofs.FiatLayer1.sub_val
+      SqiProofs.FiatLayer1.mul_val SqiProofs.FiatLayer1.square_val,
+   genOpsFull_refines .l3 SqiProofs.FiatLayer3.set_one_val SqiProofs.FiatLayer3.add_val SqiProofs.FiatLayer3.sub_val
+      SqiProofs.FiatLayer3.mul_val SqiProofs.FiatLayer3.square_val,
+   genOpsFull_refines .l5 SqiProofs.FiatLayer5.set_one_val SqiProofs.FiatLayer5.add_val SqiProofs.FiatLayer5.sub_val
+      SqiProofs.FiatLayer5.mul_val SqiProofs.FiatLayer5.square_val⟩
+
 /-! ## x86 ("broadwell") back-end, value-level model `SqiModel.GfX86`
 
 Representation domain: partially reduced representatives `a < 2^B` (B = 251 / 383 / 505), `q = c·2^e − 1`,
